@@ -279,7 +279,7 @@ class Disk:
                     return reader.read()
         elif mode == MODE_TEXT:
             full_path = op.join(self._directory, filename)
-            with open(full_path, 'r', encoding='UTF-8') as reader:
+            with open(full_path, 'r', encoding='UTF-8', newline='') as reader:
                 return reader.read()
         elif mode == MODE_PICKLE:
             if value is None:
